@@ -394,6 +394,7 @@ func c16HasVoid(v *Val) bool {
 // "kf <ID> …"; a failure inside a class that is NOT listed here is reported as "fail <class>: …".
 var c16Listed = map[string]string{
 	"mergekey": "KF-C16-mergekey",
+	"negzero":  "KF-C16-negzero",
 }
 
 func c16Verdict(class, msg string) string {
@@ -559,9 +560,9 @@ type c16Impl struct {
 }
 
 // c16TextIsBlank mirrors the blank-input test of `unmarshal` (v2/node_read.go): the text is empty after
-// strings.TrimSpace (Unicode white space). It is the `blank` argument of the model's unmarshalM; if
+// strings.Trim(s, " \\t\\r\\n") (JSON/YAML white space). It is the `blank` argument of the model's unmarshalM; if
 // node_read.go changes its test, this function changes with it (the "unmarshal" probes notice).
-func c16TextIsBlank(s string) bool { return strings.TrimSpace(s) == "" }
+func c16TextIsBlank(s string) bool { return strings.Trim(s, " \t\r\n") == "" }
 
 func c16RunImpl(w string) c16Impl {
 	var im c16Impl
